@@ -345,6 +345,144 @@ fn strategy() -> impl Strategy<Value = Case> {
         .prop_map(|(waves, perm, schedule, stray, fault, reuse_ids)| Case { waves, perm, schedule, stray, fault, reuse_ids })
 }
 
+// ---- a large request to a peer that is not reading: the call's own timeout must not tear the frame -----------------------
+
+#[derive(Clone, Debug, Serialize, Deserialize)]
+pub struct StallCase {
+    /// size of the binary argument of the first call, in KiB (large enough to fill the socket buffers)
+    pub kib: u32,
+    pub timeout_s: u8,
+    /// virtual seconds that pass while the peer does not read
+    pub stall_s: u8,
+    /// further small calls issued after the stall
+    pub later: u8,
+}
+
+pub fn stall_oracle(c: &StallCase) -> Verdict {
+    let mark = panic_mark();
+    let c2 = c.clone();
+    let res = run_case(Duration::from_secs(90), move |bed| async move {
+        let c = c2;
+        let (node, mut p) = node_with_peer(&bed, u64::MAX & !edp_client::flags::DistributionFlags::DIST_HDR_ATOM_CACHE.as_u64()).await?;
+        let local = tokio::task::LocalSet::new();
+        let returned = Rc::new(RefCell::new(0usize));
+        let big = vec![0xABu8; c.kib as usize * 1024];
+        let n_calls = 1 + c.later as usize % 3;
+        local
+            .run_until(async {
+                let mut hs = vec![];
+                let (n1, r1, t) = (node.clone(), returned.clone(), Duration::from_secs(1 + c.timeout_s as u64 % 5));
+                hs.push(tokio::task::spawn_local(async move {
+                    let _ = n1.rpc_call_raw_with_timeout("peer@127.0.0.1", "m", "f", vec![OwnedTerm::Integer(0), OwnedTerm::Binary(big)], t).await;
+                    *r1.borrow_mut() += 1;
+                }));
+                // the peer is not reading: let the sender run into the full socket, then let virtual time pass its timeout
+                for _ in 0..20 {
+                    drain().await;
+                    std::thread::sleep(Duration::from_micros(300));
+                }
+                advance(Duration::from_secs(c.stall_s as u64 % 12)).await;
+                for k in 1..n_calls {
+                    let (n2, r2) = (node.clone(), returned.clone());
+                    hs.push(tokio::task::spawn_local(async move {
+                        let _ = n2.rpc_call_raw_with_timeout("peer@127.0.0.1", "m", "f", vec![OwnedTerm::Integer(k as i64)], Duration::from_secs(2)).await;
+                        *r2.borrow_mut() += 1;
+                    }));
+                    for _ in 0..5 {
+                        drain().await;
+                    }
+                }
+                // now the peer reads everything that was and will be written; nobody is answered, every call times out
+                let mut frames: Vec<Vec<u8>> = vec![];
+                let t0 = std::time::Instant::now();
+                let mut quiet = 0;
+                while *returned.borrow() < n_calls && t0.elapsed() < Duration::from_secs(60) {
+                    p.poll_in();
+                    let before = frames.len();
+                    while let Some(f) = p.deframer.next(4) {
+                        if !f.is_empty() {
+                            frames.push(f);
+                        }
+                    }
+                    drain().await;
+                    if frames.len() == before {
+                        quiet += 1;
+                        if quiet % 50 == 0 {
+                            advance(Duration::from_secs(1)).await;
+                        }
+                        std::thread::sleep(Duration::from_micros(200));
+                    }
+                }
+                for _ in 0..20 {
+                    drain().await;
+                    p.poll_in();
+                    std::thread::sleep(Duration::from_micros(300));
+                }
+                while let Some(f) = p.deframer.next(4) {
+                    if !f.is_empty() {
+                        frames.push(f);
+                    }
+                }
+                for h in hs {
+                    h.abort();
+                }
+                Ok::<_, String>((frames, p.deframer.buf.len(), *returned.borrow()))
+            })
+            .await
+    });
+    let (frames, leftover, returned) = match res {
+        Ok(Ok(x)) => x,
+        Ok(Err(e)) => return Verdict::Fail { signature: "harness:netbed".into(), detail: e },
+        Err(BedErr::RealTimeCap) => return Verdict::Fail { signature: "node-hangs".into(), detail: "calls to a stalled peer did not return after it resumed reading".into() },
+        Err(BedErr::Setup(e)) => return Verdict::Fail { signature: "harness:netbed".into(), detail: e },
+    };
+    let panics = library_panics_since(mark);
+    if !panics.is_empty() {
+        return Verdict::Fail { signature: "panic".into(), detail: format!("{:?}", panics) };
+    }
+    // whatever reached the peer is a sequence of whole, well-formed requests, each call's at most once, in issue order
+    let mut seen: Vec<i64> = vec![];
+    for (i, f) in frames.iter().enumerate() {
+        let first_arg = parse_pass_through(f).ok().and_then(|(ctrl, payload)| {
+            let Value::Tuple(c) = &ctrl else { return None };
+            if c.len() != 4 || c[0] != Value::int(6) || c[3] != Value::atom("rex") {
+                return None;
+            }
+            let Some(Value::Tuple(pl)) = payload else { return None };
+            let Value::Tuple(call) = pl.get(1)? else { return None };
+            let Value::List { elems, .. } = call.get(3)? else { return None };
+            match elems.first()? {
+                Value::Int(b) => b.to_i64(),
+                _ => None,
+            }
+        });
+        match first_arg {
+            Some(k) => seen.push(k),
+            None => {
+                return Verdict::Fail {
+                    signature: "torn-or-interleaved-frame".into(),
+                    detail: format!("frame {i} of {} ({} bytes, starts {}) is not a well-formed remote call request; {} KiB request, timeout {} s, stall {} s", frames.len(), f.len(), crate::terms::hex(&f[..f.len().min(24)]), c.kib, 1 + c.timeout_s % 5, c.stall_s % 12),
+                }
+            }
+        }
+    }
+    if leftover > 0 {
+        return Verdict::Fail { signature: "torn-or-interleaved-frame".into(), detail: format!("{leftover} bytes that do not form a complete frame were left on the wire after every call had returned") };
+    }
+    let mut sorted = seen.clone();
+    sorted.sort();
+    sorted.dedup();
+    if sorted != seen {
+        return Verdict::Fail { signature: "requests-duplicated-or-reordered".into(), detail: format!("requests seen by the peer: {:?}", seen) };
+    }
+    let _ = returned;
+    Verdict::Pass(CaseInfo::nt(fp(&format!("{:?}", c))).class_if(c.kib >= 4096, "request-larger-than-the-socket-buffers"))
+}
+
+fn stall_strategy() -> impl Strategy<Value = StallCase> {
+    (prop_oneof![Just(1u32), Just(300), Just(4096), Just(9000), 5000u32..16000], any::<u8>(), any::<u8>(), any::<u8>()).prop_map(|(kib, timeout_s, stall_s, later)| StallCase { kib, timeout_s, stall_s, later })
+}
+
 pub fn run(run: &mut Run) {
     run.rule = "a started Node connected to a scripted peer; 1..3 waves of 1..6 concurrent rpc_call_raw_with_timeout calls, each with its own virtual timeout (1..8 s) and a unique argument; per request the peer \
         replies at once, after d virtual seconds (before or after the caller's timeout), never, twice, or at once and again during the next wave; replies of a wave are sent in a generated order; stray replies go to \
@@ -356,8 +494,10 @@ pub fn run(run: &mut Run) {
         "virtual time: the caller's timeout and the peer's delays are both measured on the harness-owned clock; a reply counts as 'in time' only if it was written and consumed a full virtual second before the timeout".into(),
     ];
     run.prop("rpc-scripts", strategy, run.tier.pick(3000, 120_000), oracle);
+    // a request larger than the socket buffers to a peer that reads only after the call's timeout has passed in virtual time
+    run.prop("stalled-peer", stall_strategy, run.tier.pick(36, 600), stall_oracle);
 }
 
 pub fn replays() -> Vec<ReplayEntry> {
-    vec![replay_entry("rpc-scripts", oracle)]
+    vec![replay_entry("rpc-scripts", oracle), replay_entry("stalled-peer", stall_oracle)]
 }
